@@ -13,6 +13,10 @@ import time
 
 from ..core import pool
 
+import warnings
+# klepto warns once per read that a compressed file is not memory-mapped (compression + memmode configurations)
+warnings.filterwarnings('ignore', message='.*appears to be a zip.*')
+
 
 # --------------------------------------------------------------------------
 # environment seam: sqlite's busy timeout (default 5 s of real sleeping) is shortened so that a
@@ -80,6 +84,7 @@ KEY_SETS = {
     # (klepto's hashmap produces negative ints)
     'pickle': [('a-b', 'a_b', 'c'), (1, '1', 'c'), ((1, 2), '(1, 2)', 'c'), (PK1, MD5, 'c'), ('Kelvin', '_hidden', -7)],
     'hostile': [('', 'x/y', '.')],
+    'long': [('L' * 300 + 'a', 'L' * 300 + 'b', 'L' * 245 + 'c')],
     'json': [('a-b', 'a_b', 'c'), ('1', '(1, 2)', 'c')],
     'source': [('a-b', 'a_b', 'c'), (1, '1', 'c')],
     'sql': [(1, '1', b'\x01'), ('a-b', 'a_b', 'c'), ('Kelvin', '_hidden', -7)],
@@ -101,6 +106,10 @@ BACKENDS = {
     'dir-source': ('dir', 'source', {'serialized': False}),
     'dir-compressed': ('dir', 'pickle', {'compression': 3}),
     'dir-memmode': ('dir', 'pickle', {'memmode': 'r'}),
+    # option combinations (each option alone is covered above)
+    'dir-compressed-memmode': ('dir', 'pickle', {'compression': 3, 'memmode': 'r+'}),
+    'dir-json-compressed': ('dir', 'pickle', {'protocol': 'json', 'compression': 3}),
+    'dir-json-memmode': ('dir', 'pickle', {'protocol': 'json', 'memmode': 'r'}),
     'sql': ('sql', 'sql', {}),
     'sql-memory': ('sqlmem', 'sql', {}),
     # the same stores addressed by a name relative to the working directory at open time
